@@ -41,7 +41,10 @@ man = {
     ],
     'checks': checks,
     'not_applicable': na,
-    'notes': 'See DESIGN.md. known_findings.json lists genuine defects that are recorded rather than repaired.',
+    'notes': ('See DESIGN.md (section 11 is the build record). known_findings.json lists genuine defects that are recorded rather than repaired, and the repaired ones as "fixed:" lines. '
+              'Beyond the 33 listed properties the specification covers six more parts of pytezos (DESIGN 11.7); their checks are run the same way and are not claims about listed properties: '
+              './check X01 .. X06 quick|thorough (wait_blocks, wait_operations, RPC path algebra, operation receipts, contract-run lifecycle, sandbox baking). '
+              'seeded/ holds the independently seeded changes the checks were evaluated against (DESIGN 11.5).'),
 }
 json.dump(man, open(os.path.join(ROOT, 'MANIFEST.json'), 'w'), indent=1)
 print('checks:', len(checks), 'not_applicable:', len(na))
